@@ -22,6 +22,14 @@ package chain
 //     key scan reports every height key above best.no whatever its value);
 //   * extra output keys: final.accounts, ref.dump/errs, p7, and in crash mode unit_best, bests,
 //     and per k sdbroot/old_tip/new_tip/legit_strict/legit_mid/replay_errs/replay_best;
+//   * every hardfork is enabled from block 0 (own HardforkConfig{}), so that every tx pays a gas
+//     fee that depends on the gas price in force; types.InitGovernance("dpos") after every node
+//     start (the test genesis is an sbp chain, system txs only validate on dpos chains);
+//   * the in-memory system parameters of contract/system are one package-level variable: every
+//     node (factory, node under test, reference, recovered nodes) owns a snapshot that is swapped
+//     in when the node becomes the active one (vEngine.use; shim zz_verif_sysparams_shim.go).  A
+//     snapshot is never rebuilt from the state DB.  vConsensus.Update does what dpos.Status.Update
+//     does with them (CommitParams(true) for a child of its best block, else CommitParams(false));
 //   * nonce rule: 1 + number of SUCCESSFULLY executed txs of the sender on the path
 //     G..parent and earlier in the block (identical to the plain count whenever all txs are
 //     valid; a tx failing through an explicit "nonce" does not shift later nonces).
@@ -50,10 +58,11 @@ import (
 	"github.com/aergoio/aergo/v2/config"
 	"github.com/aergoio/aergo/v2/consensus"
 	"github.com/aergoio/aergo/v2/contract"
-	"github.com/aergoio/aergo/v2/internal/common"
+	"github.com/aergoio/aergo/v2/contract/system"
 	"github.com/aergoio/aergo/v2/internal/enc/proto"
 	"github.com/aergoio/aergo/v2/pkg/component"
 	"github.com/aergoio/aergo/v2/state"
+	"github.com/aergoio/aergo/v2/state/statedb"
 	"github.com/aergoio/aergo/v2/types"
 	"github.com/aergoio/aergo/v2/types/dbkey"
 	"github.com/aergoio/aergo/v2/types/message"
@@ -77,6 +86,7 @@ type vBlockSpec struct {
 	Bad    string    `json:"bad"`
 	No     *uint64   `json:"no"`
 	Forge  bool      `json:"forge"`
+	Gov    int       `json:"gov"` // != 0: v1stake + v1voteDAO GASPRICE = default price + gov Gaer from a voter of its own
 }
 
 type vCase struct {
@@ -92,6 +102,9 @@ type vCase struct {
 	Recrash   string       `json:"recrash"` // crash mode: "none" | "units" | "ops" (crash during recovery)
 	Pre       []string     `json:"pre"`     // per arrival: "ok" | "ts" (VerifyTimestamp false) | "sign" (VerifySign error)
 	Own       []bool       `json:"own"`     // per arrival: deliver as a block produced by the node itself (bstate != nil)
+	HasWal    bool         `json:"haswal"`  // consensus reports HasWAL() and uses the raft IsConnectedBlock
+	Wal       []bool       `json:"wal"`     // per arrival: pre-write the block body like ChainDB.WriteRaftEntry
+	Probe     string       `json:"probe"`   // "all" (default) | "none": deliver the probe child of the best block
 }
 
 const vHeightCap = 64 // "heights" lists 0..min(maxNo+2, vHeightCap); the raw scan covers the rest
@@ -107,6 +120,8 @@ type vConsensus struct {
 	lib      types.BlockNo
 	failTs   bool // scripted per arrival ("pre":"ts")
 	failSign bool // scripted per arrival ("pre":"sign")
+	hasWAL   bool // case field "haswal"
+	best     *types.Block
 }
 
 func (c *vConsensus) SetStateDB(sdb *state.ChainStateDB)        {}
@@ -119,15 +134,30 @@ func (c *vConsensus) VerifySign(block *types.Block) error {
 	return nil
 }
 func (c *vConsensus) IsBlockValid(b, best *types.Block) error   { return nil }
-func (c *vConsensus) Update(block *types.Block)                 {}
+
+// Update does what dpos.Status.Update does with the in-memory system parameters: a parameter voted
+// in a block becomes active when that block is connected on top of the status' best block, and a
+// pending value is dropped when the status is moved anywhere else.
+func (c *vConsensus) Update(block *types.Block) {
+	if c.best != nil && block.PrevID() == c.best.ID() {
+		system.CommitParams(true)
+	} else {
+		system.CommitParams(false)
+	}
+	c.best = block
+}
 func (c *vConsensus) Save(tx consensus.TxWriter) error          { return nil }
 func (c *vConsensus) NeedReorganization(r types.BlockNo) bool   { return r >= c.lib }
 func (c *vConsensus) Info() string                              { return "" }
 func (c *vConsensus) GetType() consensus.ConsensusType          { return consensus.ConsensusSBP }
 func (c *vConsensus) NeedNotify() bool                          { return true }
-func (c *vConsensus) HasWAL() bool                              { return false }
+func (c *vConsensus) HasWAL() bool                              { return c.hasWAL }
 func (c *vConsensus) IsForkEnable() bool                        { return true }
 func (c *vConsensus) IsConnectedBlock(block *types.Block) bool {
+	if c.hasWAL { // raftv2 BlockFactory.IsConnectedBlock
+		saved, err := c.cdb.GetBlockByNo(block.GetHeader().GetBlockNo())
+		return err == nil && bytes.Equal(saved.BlockHash(), block.BlockHash())
+	}
 	_, err := c.cdb.GetBlock(block.BlockHash())
 	return err == nil
 }
@@ -199,12 +229,51 @@ type vEngine struct {
 	badSig    map[vTxKey]*types.Tx
 	seq       int
 	progress  string
+	cidHash   []byte
+	fnode     *vNode // the factory as a parameter owner
+	active    *vNode // owner of the system parameters currently installed in contract/system
+	named     map[string]*vAcct
+	govCache  map[string][]*types.Tx
+	basePrice *big.Int
 }
 
 type vNode struct {
-	cs  *ChainService
-	cc  *vConsensus
-	rec *vRecorder
+	cs     *ChainService
+	cc     *vConsensus
+	rec    *vRecorder
+	params *system.VerifParams // in-memory system parameters of this node while it is not active
+}
+
+// use makes n the active owner of the package-level system parameters.
+func (e *vEngine) use(n *vNode) {
+	if n == nil || e.active == n {
+		return
+	}
+	if e.active != nil {
+		e.active.params = system.VerifSnapshotParams()
+	}
+	if n.params != nil {
+		system.VerifRestoreParams(n.params)
+	}
+	e.active = n
+}
+
+func vSysState(sdb *state.ChainStateDB, root []byte) (*statedb.ContractState, error) {
+	return statedb.GetSystemAccountState(sdb.OpenNewStateDB(root))
+}
+
+// vStateParams: canonical string of the parameters stored in the state with the given root.
+func vStateParams(sdb *state.ChainStateDB, root []byte) (s string) {
+	defer func() {
+		if r := recover(); r != nil {
+			s = fmt.Sprintf("?panic: %v", r)
+		}
+	}()
+	scs, err := vSysState(sdb, root)
+	if err != nil {
+		return "?" + err.Error()
+	}
+	return system.VerifParamsFromState(scs)
 }
 
 func vWriteSnapshot(dir string, chain, st map[string][]byte) error {
@@ -243,13 +312,16 @@ func newVEngine() (*vEngine, error) {
 	if err != nil {
 		return nil, err
 	}
-	e := &vEngine{tmp: tmp, baseDir: filepath.Join(tmp, "base"), txCache: map[vTxKey]*types.Tx{}, badSig: map[vTxKey]*types.Tx{}}
+	e := &vEngine{tmp: tmp, baseDir: filepath.Join(tmp, "base"), txCache: map[vTxKey]*types.Tx{}, badSig: map[vTxKey]*types.Tx{},
+		named: map[string]*vAcct{}, govCache: map[string][]*types.Tx{}}
 	serverCtx := config.NewServerContext("", "")
 	cfg := serverCtx.GetDefaultConfig().(*config.Config)
 	cfg.DbType = "memorydb"
 	cfg.EnableTestmode = true
 	cfg.Blockchain.NumWorkers = 1
 	cfg.Blockchain.VerifierCount = 2
+	// every hardfork enabled from the first block, in a copy of our own (the default is a shared object)
+	cfg.Hardfork = &config.HardforkConfig{}
 	e.baseCfg = cfg
 	testCfg = cfg
 	dfltUseMempool = false
@@ -260,12 +332,18 @@ func newVEngine() (*vEngine, error) {
 		return nil, err
 	}
 	e.factory = NewChainService(&fcfg)
-	e.factory.SetChainConsensus(&vConsensus{cdb: e.factory.cdb})
 	g, err := e.factory.getBlockByNo(0)
 	if err != nil {
 		return nil, err
 	}
+	fcc := &vConsensus{cdb: e.factory.cdb, best: g}
+	e.factory.SetChainConsensus(fcc)
+	types.InitGovernance("dpos", true)
 	e.genesis = g
+	e.fnode = &vNode{cs: e.factory, cc: fcc, rec: &vRecorder{}}
+	e.active = e.fnode
+	e.cidHash = types.NewBlockHeaderInfoFromPrevBlock(g, 0, cfg.Hardfork).ChainIdHash()
+	e.basePrice = new(big.Int).Set(system.DefaultParams["GASPRICE"])
 	e.baseChain = dumpStore(e.factory.cdb.store)
 	e.baseState = dumpStore(e.factory.sdb.VerifStore())
 	if err := vWriteSnapshot(e.baseDir, e.baseChain, e.baseState); err != nil {
@@ -290,12 +368,51 @@ func (e *vEngine) tx(from, to int, amt int64, nonce uint64) *types.Tx {
 	if t, ok := e.txCache[k]; ok {
 		return t
 	}
-	cid := e.genesis.GetHeader().GetChainID()
-	t := &types.Tx{Body: &types.TxBody{Nonce: nonce, Account: e.acct(from).addr, Recipient: e.acct(to).addr,
-		Amount: big.NewInt(amt).Bytes(), Type: types.TxType_TRANSFER, ChainIdHash: common.Hasher(cid)}}
-	key.SignTx(t, e.acct(from).k)
+	t := e.mkTx(e.acct(from), e.acct(to).addr, big.NewInt(amt), nonce, types.TxType_TRANSFER, "")
 	e.txCache[k] = t
 	return t
+}
+
+func (e *vEngine) mkTx(from *vAcct, to []byte, amount *big.Int, nonce uint64, typ types.TxType, payload string) *types.Tx {
+	t := &types.Tx{Body: &types.TxBody{Nonce: nonce, Account: from.addr, Recipient: to,
+		Amount: amount.Bytes(), Type: typ, ChainIdHash: e.cidHash}}
+	if payload != "" {
+		t.Body.Payload = []byte(payload)
+	}
+	key.SignTx(t, from.k)
+	return t
+}
+
+// namedAcct: an account derived from a label (voter of a gov block, probe payer), never used elsewhere.
+func (e *vEngine) namedAcct(label string) *vAcct {
+	if a, ok := e.named[label]; ok {
+		return a
+	}
+	seed := sha256.Sum256([]byte("verif-chaindb-named-" + label))
+	k, _ := btcec.PrivKeyFromBytes(seed[:])
+	a := &vAcct{k, keycrypto.GenerateAddress(k.PubKey().ToECDSA())}
+	e.named[label] = a
+	return a
+}
+
+// govTxs: v1stake (StakingMinimum) + v1voteDAO GASPRICE = default price + gov Gaer, from the voter of the block.
+func (e *vEngine) govTxs(name string, gov int) []*types.Tx {
+	ck := fmt.Sprintf("%s/%d", name, gov)
+	if t, ok := e.govCache[ck]; ok {
+		return t
+	}
+	voter := e.namedAcct("voter-" + name)
+	price := new(big.Int).Add(e.basePrice, types.NewAmount(uint64(gov), types.Gaer))
+	if gov < 0 {
+		price = new(big.Int).Sub(e.basePrice, types.NewAmount(uint64(-gov), types.Gaer))
+	}
+	txs := []*types.Tx{
+		e.mkTx(voter, []byte(types.AergoSystem), types.StakingMinimum, 1, types.TxType_GOVERNANCE, `{"Name":"v1stake"}`),
+		e.mkTx(voter, []byte(types.AergoSystem), new(big.Int), 2, types.TxType_GOVERNANCE,
+			`{"Name":"v1voteDAO","Args":["GASPRICE","`+price.String()+`"]}`),
+	}
+	e.govCache[ck] = txs
+	return txs
 }
 
 // badSigTx: a correctly formed transfer whose signature has one flipped byte (last byte of the
@@ -317,12 +434,21 @@ func (e *vEngine) badSigTx(from, to int, amt int64, nonce uint64) *types.Tx {
 func (e *vEngine) newNode(dir string) (n *vNode, perr string) { return e.newNodeT(dir, "memorydb") }
 
 func (e *vEngine) newNodeT(dir string, dbType string) (n *vNode, perr string) {
+	// NewChainService loads the parameters of the new node into the package-level variable: put
+	// the active node's away first (and back if the start fails)
+	if e.active != nil {
+		e.active.params = system.VerifSnapshotParams()
+	}
 	defer func() {
 		if r := recover(); r != nil {
 			n, perr = nil, fmt.Sprint(r)
 			if perr == "" {
 				perr = "panic"
 			}
+			if e.active != nil && e.active.params != nil {
+				system.VerifRestoreParams(e.active.params)
+			}
+			types.InitGovernance("dpos", true)
 		}
 	}()
 	c := *e.baseCfg
@@ -330,7 +456,9 @@ func (e *vEngine) newNodeT(dir string, dbType string) (n *vNode, perr string) {
 	c.DbType = dbType
 	dfltUseMempool = false
 	cs := NewChainService(&c)
+	types.InitGovernance("dpos", true)
 	cc := &vConsensus{cdb: cs.cdb}
+	cc.best, _ = cs.GetBestBlock()
 	cs.SetChainConsensus(cc)
 	rec := &vRecorder{}
 	hub := component.NewComponentHub()
@@ -338,7 +466,9 @@ func (e *vEngine) newNodeT(dir string, dbType string) (n *vNode, perr string) {
 		hub.Register(&vFakeComp{name: name, rec: rec})
 	}
 	cs.BaseComponent.SetHub(hub)
-	return &vNode{cs: cs, cc: cc, rec: rec}, ""
+	n = &vNode{cs: cs, cc: cc, rec: rec}
+	e.active = n
+	return n, ""
 }
 
 // drainVerifier waits for the verification result a block that failed in tx execution left
@@ -374,6 +504,9 @@ type vBlk struct {
 	trueRoot []byte // true post root (execution of the valid txs)
 	execOK   bool
 	cnt      map[int]uint64
+	params   string // parameters stored in the true post-state
+	valid    bool   // the block and all its ancestors are fully valid (it can become the best block)
+	probe    *vBlk  // lazily built probe child
 }
 
 type vCtx struct {
@@ -403,10 +536,12 @@ func vDigest(b *types.Block) []byte {
 func (e *vEngine) build(c *vCase) (*vCtx, error) {
 	x := &vCtx{c: c, blks: map[string]*vBlk{}, txSet: map[string]bool{}, idName: map[string]string{}}
 	g := e.genesis
-	x.blks["G"] = &vBlk{name: "G", idx: -1, blk: g, id: g.BlockHash(), digest: vDigest(g),
-		trueRoot: g.GetHeader().GetBlocksRootHash(), execOK: true, cnt: map[int]uint64{}}
-	x.idName[string(g.BlockHash())] = "G"
 	f := e.factory
+	e.use(e.fnode)
+	x.blks["G"] = &vBlk{name: "G", idx: -1, blk: g, id: g.BlockHash(), digest: vDigest(g),
+		trueRoot: g.GetHeader().GetBlocksRootHash(), execOK: true, cnt: map[int]uint64{}, valid: true,
+		params: vStateParams(f.sdb, g.GetHeader().GetBlocksRootHash())}
+	x.idName[string(g.BlockHash())] = "G"
 	for i := range c.Blocks {
 		spec := &c.Blocks[i]
 		if _, dup := x.blks[spec.Name]; dup || spec.Name == "" {
@@ -421,12 +556,18 @@ func (e *vEngine) build(c *vCase) (*vCtx, error) {
 			b.cnt[k] = v
 		}
 		ts := par.blk.GetHeader().GetTimestamp() + 1 + int64(i)
-		bi := types.NewBlockHeaderInfoFromPrevBlock(par.blk, ts, types.DummyBlockVersionner(0))
+		// system parameters in force for a child of the parent (true post-state)
+		pscs, err := vSysState(f.sdb, par.trueRoot)
+		if err != nil {
+			return nil, err
+		}
+		system.InitSystemParams(pscs, system.RESET)
+		bi := types.NewBlockHeaderInfoFromPrevBlock(par.blk, ts, f.cfg.Hardfork)
 		if spec.No != nil {
 			bi.No = *spec.No
 		}
 		bs := f.sdb.NewBlockState(par.trueRoot, state.SetPrevBlockHash(par.blk.BlockHash()))
-		bs.SetGasPrice(big.NewInt(0))
+		bs.SetGasPrice(system.GetGasPrice())
 		bs.Receipts().SetHardFork(f.cfg.Hardfork, bi.No)
 		exec := NewTxExecutor(context.Background(), nil, f.cdb, bi, contract.BlockFactory)
 		var txs []*types.Tx
@@ -446,13 +587,23 @@ func (e *vEngine) build(c *vCase) (*vCtx, error) {
 				b.cnt[t.From]++
 			}
 		}
+		if spec.Gov != 0 {
+			for _, tx := range e.govTxs(spec.Name, spec.Gov) {
+				txs = append(txs, tx)
+				if err := exec(bs, types.NewTransaction(tx)); err != nil {
+					b.execOK = false
+				}
+			}
+		}
 		if err := bs.Update(); err != nil {
 			return nil, err
 		}
 		if err := bs.Commit(); err != nil {
 			return nil, err
 		}
+		system.CommitParams(false)
 		b.trueRoot = append([]byte{}, bs.GetRoot()...)
+		b.params = vStateParams(f.sdb, b.trueRoot)
 		blk := types.NewBlock(bi, b.trueRoot, bs.Receipts(), txs, nil, nil)
 		switch spec.Bad {
 		case "":
@@ -494,6 +645,7 @@ func (e *vEngine) build(c *vCase) (*vCtx, error) {
 		}
 		b.id = append([]byte{}, blk.BlockHash()...)
 		b.blk = blk
+		b.valid = par.valid && spec.Bad == "" && b.execOK && !spec.Forge && spec.No == nil
 		enc, err := proto.Encode(blk)
 		if err != nil {
 			return nil, err
@@ -529,7 +681,105 @@ func (e *vEngine) build(c *vCase) (*vCtx, error) {
 			return nil, fmt.Errorf("unknown winner %q", c.Winner)
 		}
 	}
+	if c.Probe != "" && c.Probe != "all" && c.Probe != "none" {
+		return nil, fmt.Errorf("unknown probe option %q", c.Probe)
+	}
 	return x, nil
+}
+
+// probeChild builds (once) the probe child of a fully valid block: one fee-paying transfer from the
+// probe account (nonce 1, the account is used by probe blocks only), produced by the factory on the
+// true post-state of the parent with the parameters in force there.
+func (e *vEngine) probeChild(par *vBlk) (*vBlk, error) {
+	if par.probe != nil {
+		return par.probe, nil
+	}
+	prev := e.active
+	e.use(e.fnode)
+	defer e.use(prev)
+	f := e.factory
+	pscs, err := vSysState(f.sdb, par.trueRoot)
+	if err != nil {
+		return nil, err
+	}
+	system.InitSystemParams(pscs, system.RESET)
+	defer system.CommitParams(false)
+	bi := types.NewBlockHeaderInfoFromPrevBlock(par.blk, par.blk.GetHeader().GetTimestamp()+1000000, f.cfg.Hardfork)
+	bs := f.sdb.NewBlockState(par.trueRoot, state.SetPrevBlockHash(par.blk.BlockHash()))
+	bs.SetGasPrice(system.GetGasPrice())
+	bs.Receipts().SetHardFork(f.cfg.Hardfork, bi.No)
+	exec := NewTxExecutor(context.Background(), nil, f.cdb, bi, contract.BlockFactory)
+	tx := e.mkTxCached("probe")
+	if err := exec(bs, types.NewTransaction(tx)); err != nil {
+		return nil, err
+	}
+	if err := bs.Update(); err != nil {
+		return nil, err
+	}
+	if err := bs.Commit(); err != nil {
+		return nil, err
+	}
+	blk := types.NewBlock(bi, bs.GetRoot(), bs.Receipts(), []*types.Tx{tx}, nil, nil)
+	p := &vBlk{name: "probe(" + par.name + ")", idx: -2, blk: blk, id: append([]byte{}, blk.BlockHash()...)}
+	if p.enc, err = proto.Encode(blk); err != nil {
+		return nil, err
+	}
+	par.probe = p
+	return p, nil
+}
+
+func (e *vEngine) mkTxCached(label string) *types.Tx {
+	if t, ok := e.govCache["#"+label]; ok {
+		return t[0]
+	}
+	t := e.mkTx(e.namedAcct(label), e.acct(0).addr, big.NewInt(1), 1, types.TxType_TRANSFER, "")
+	e.govCache["#"+label] = []*types.Tx{t}
+	return t
+}
+
+// probe delivers the probe child of the current best block to the node ("the next valid block of the
+// best block, produced by the independent factory, is accepted").  It changes the node: callers use
+// it last, or on an instance of their own.
+func (e *vEngine) probe(n *vNode, x *vCtx) (res map[string]interface{}, p12 string) {
+	e.use(n)
+	res = map[string]interface{}{"parent": "", "res": "skip", "err": "", "best": false}
+	best, _ := n.cs.GetBestBlock()
+	if best == nil {
+		return
+	}
+	name := x.idName[string(best.BlockHash())]
+	res["parent"] = name
+	par := x.blks[name]
+	if par == nil || !par.valid {
+		return
+	}
+	pb, err := e.probeChild(par)
+	if err != nil {
+		res["res"], res["err"] = "skip", "engine: cannot build probe: "+err.Error()
+		return
+	}
+	n.cc.lib = 0
+	n.cc.failTs, n.cc.failSign = false, false
+	aerr := vSafeAdd(n, pb.clone())
+	nb, _ := n.cs.GetBestBlock()
+	isBest := nb != nil && bytes.Equal(nb.BlockHash(), pb.id)
+	res["best"] = isBest
+	switch {
+	case aerr != nil:
+		es := aerr.Error()
+		if len(es) > 120 {
+			es = es[:120]
+		}
+		res["res"], res["err"] = "err", es
+	case !isBest:
+		res["res"], res["err"] = "err", "accepted but not connected as the best block"
+	default:
+		res["res"] = "ok"
+	}
+	if res["res"] == "err" {
+		p12 = "P12 next valid child of the best block rejected: " + res["err"].(string)
+	}
+	return
 }
 
 func (b *vBlk) clone() *types.Block {
@@ -555,7 +805,7 @@ func (x *vCtx) blocksJSON() map[string]interface{} {
 		out[name] = map[string]interface{}{
 			"id": hx(b.id), "digest": hx(b.digest), "prev": hx(b.blk.GetHeader().GetPrevBlockHash()),
 			"no": b.blk.BlockNo(), "root": hx(b.blk.GetHeader().GetBlocksRootHash()), "txs": txs,
-			"apply_pre": hx(b.pre), "apply_post": post,
+			"apply_pre": hx(b.pre), "apply_post": post, "params": b.params,
 		}
 	}
 	return out
@@ -649,6 +899,7 @@ type vMain struct {
 
 // predicates evaluates P1..P6 on the node (direct predicate, independent of any model).
 func (e *vEngine) predicates(n *vNode, x *vCtx) (pred []string, mp vMain) {
+	e.use(n)
 	cs := n.cs
 	cdb := cs.cdb
 	fail := func(f string, a ...interface{}) { pred = append(pred, fmt.Sprintf(f, a...)) }
@@ -766,6 +1017,10 @@ func (e *vEngine) predicates(n *vNode, x *vCtx) (pred []string, mp vMain) {
 	if len(broot) != 0 && !cs.sdb.GetStateDB().HasMarker(broot) {
 		fail("P6 no state marker for best root %s", hx(broot))
 	}
+	// P11
+	if mem, st := system.VerifParamsInMemory(), vStateParams(cs.sdb, broot); mem != st {
+		fail("P11 in-memory system parameters differ from the state of the best block: mem=%s state=%s", mem, st)
+	}
 	return
 }
 
@@ -797,6 +1052,7 @@ func (e *vEngine) rawScan(n *vNode, x *vCtx) (scan map[string]int, pred []string
 }
 
 func (e *vEngine) observe(n *vNode, x *vCtx) map[string]interface{} {
+	e.use(n)
 	cs := n.cs
 	cdb := cs.cdb
 	s := map[string]interface{}{}
@@ -885,12 +1141,13 @@ func (e *vEngine) observe(n *vNode, x *vCtx) map[string]interface{} {
 	}
 	s["scan"] = scan
 	s["pred"] = pred
+	s["params"] = system.VerifParamsInMemory()
 	return s
 }
 
 // ownBState builds, on the node under test and on its CURRENT state root, the BlockState a block
 // factory would hand to addBlock together with the block: the txs are executed with the real
-// executor exactly as in build() (gas price 0, BlockFactory mode), bs.Update() but no Commit.  A
+// executor exactly as in build() (gas price in force on the node, BlockFactory mode), bs.Update() but no Commit.  A
 // tx that fails is skipped (the executor rolls its snapshot back) and the bstate is built from the
 // txs that did execute.
 func (e *vEngine) ownBState(n *vNode, blk *types.Block) (bs *state.BlockState, err error) {
@@ -902,7 +1159,7 @@ func (e *vEngine) ownBState(n *vNode, blk *types.Block) (bs *state.BlockState, e
 	cs := n.cs
 	bi := types.NewBlockHeaderInfo(blk)
 	bs = cs.sdb.NewBlockState(cs.sdb.GetRoot(), state.SetPrevBlockHash(blk.GetHeader().GetPrevBlockHash()))
-	bs.SetGasPrice(big.NewInt(0))
+	bs.SetGasPrice(system.GetGasPrice())
 	bs.Receipts().SetHardFork(cs.cfg.Hardfork, bi.No)
 	exec := NewTxExecutor(context.Background(), nil, cs.cdb, bi, contract.BlockFactory)
 	for _, tx := range blk.GetBody().GetTxs() {
@@ -935,16 +1192,27 @@ func (e *vEngine) arriveOpt(n *vNode, x *vCtx, i int, plain bool) map[string]int
 	if i < len(x.c.Lib) {
 		n.cc.lib = x.c.Lib[i]
 	}
-	pre, own := "ok", false
+	e.use(n)
+	pre, own, wal := "ok", false, false
 	if !plain {
 		if i < len(x.c.Pre) && x.c.Pre[i] != "" {
 			pre = x.c.Pre[i]
 		}
 		own = i < len(x.c.Own) && x.c.Own[i]
+		wal = x.c.HasWal && i < len(x.c.Wal) && x.c.Wal[i]
 	}
 	n.rec.reset()
-	_, e0 := n.cs.cdb.getBlock(b.id)
-	before := e0 == nil
+	if wal { // the raft WAL writes the block body before the block is connected (ChainDB.WriteRaftEntry)
+		dbTx := n.cs.cdb.store.NewTx()
+		if werr := n.cs.cdb.addBlock(dbTx, b.clone()); werr == nil {
+			dbTx.Commit()
+		} else {
+			dbTx.Discard()
+		}
+	}
+	conn := n.cc.IsConnectedBlock(b.clone())
+	_, perr := n.cs.cdb.getBlock(b.blk.GetHeader().GetPrevBlockHash())
+	parentStored := perr == nil
 	n.cc.failTs, n.cc.failSign = pre == "ts", pre == "sign"
 	var err error
 	if own {
@@ -956,20 +1224,18 @@ func (e *vEngine) arriveOpt(n *vNode, x *vCtx, i int, plain bool) map[string]int
 		err = vSafeAdd(n, b.clone())
 	}
 	n.cc.failTs, n.cc.failSign = false, false
-	_, e1 := n.cs.cdb.getBlock(b.id)
-	after := e1 == nil
 	s := e.observe(n, x)
 	s["arrive"] = name
-	res, es := "err", ""
+	res, es := "ok", ""
 	switch {
-	case err == nil && before:
-		res = "known"
-	case err == nil && after:
-		res = "ok"
-	case err == nil:
-		res = "orphan"
 	case err == ErrBlockCachedErrLRU:
 		res = "cached"
+	case err != nil:
+		res = "err"
+	case conn:
+		res = "known"
+	case !parentStored:
+		res = "orphan"
 	}
 	if err != nil {
 		es = err.Error()
@@ -981,6 +1247,7 @@ func (e *vEngine) arriveOpt(n *vNode, x *vCtx, i int, plain bool) map[string]int
 	s["err"] = es
 	s["pre"] = pre
 	s["own"] = own
+	s["wal"] = wal
 	put := append([]string{}, n.rec.put...)
 	sort.Strings(put)
 	s["put"] = put
@@ -1034,6 +1301,7 @@ func (e *vEngine) accounts(n *vNode, x *vCtx) []interface{} {
 }
 
 func (e *vEngine) final(n *vNode, x *vCtx) map[string]interface{} {
+	e.use(n)
 	f := map[string]interface{}{"best": "", "sdbroot": hx(n.cs.sdb.GetRoot())}
 	if best, _ := n.cs.GetBestBlock(); best != nil {
 		f["best"] = hx(best.BlockHash())
@@ -1051,10 +1319,28 @@ func (e *vEngine) prepNode(n *vNode, x *vCtx) error {
 	if !bytes.Equal(g.BlockHash(), e.genesis.BlockHash()) {
 		return fmt.Errorf("GENESIS MISMATCH node %s factory %s", hx(g.BlockHash()), hx(e.genesis.BlockHash()))
 	}
+	e.configure(n, x)
+	return nil
+}
+
+// configure applies the per-case node configuration (orphan pool size, consensus with a WAL).
+func (e *vEngine) configure(n *vNode, x *vCtx) {
 	if x.c.OrphanCap >= 1 && x.c.OrphanCap <= 100 {
 		n.cs.op = NewOrphanPool(x.c.OrphanCap)
 	}
-	return nil
+	n.cc.hasWAL = x.c.HasWal
+}
+
+// doProbe runs the probe on n (which must not be used afterwards) and files the result.
+func (e *vEngine) doProbe(n *vNode, x *vCtx, rec map[string]interface{}, pred *[]string) {
+	if x.c.Probe == "none" {
+		return
+	}
+	res, p12 := e.probe(n, x)
+	rec["probe"] = res
+	if p12 != "" && pred != nil {
+		*pred = append(*pred, p12)
+	}
 }
 
 func (e *vEngine) runCase(c *vCase) (out map[string]interface{}) {
@@ -1069,7 +1355,8 @@ func (e *vEngine) runCase(c *vCase) (out map[string]interface{}) {
 		out["error"] = err.Error()
 		return
 	}
-	out["genesis"] = map[string]interface{}{"id": hx(e.genesis.BlockHash()), "root": hx(e.genesis.GetHeader().GetBlocksRootHash())}
+	out["genesis"] = map[string]interface{}{"id": hx(e.genesis.BlockHash()), "root": hx(e.genesis.GetHeader().GetBlocksRootHash()),
+		"params": x.blks["G"].params}
 	out["blocks"] = x.blocksJSON()
 	if c.Mode == "crash" {
 		e.runCrash(x, out)
@@ -1096,6 +1383,12 @@ func (e *vEngine) runCase(c *vCase) (out map[string]interface{}) {
 	if c.Winner != "" {
 		e.winner(n, x, out, last)
 	}
+	// probe: last, it changes the node
+	var p12 []string
+	e.doProbe(n, x, out, &p12)
+	if last != nil && len(p12) > 0 {
+		last["pred"] = append(last["pred"].([]string), p12...)
+	}
 	return
 }
 
@@ -1120,6 +1413,7 @@ func (e *vEngine) winner(n *vNode, x *vCtx, out map[string]interface{}, last map
 		p7 = append(p7, "P7 reference node init panic")
 	} else {
 		defer r.stop()
+		e.configure(r, x)
 		ref := map[string]interface{}{}
 		errs := []string{}
 		for _, b := range path {
